@@ -157,9 +157,12 @@ impl Relation for ZkirRelation {
     }
 
     fn read_relation<R: io::Read>(reader: &mut R) -> io::Result<Self> {
-        let program: Program =
-            bincode::decode_from_std_read(reader, bincode::config::standard())
-                .map_err(io::Error::other)?;
+        // (With a limit: lengths in the encoding are not trusted for allocation.)
+        let program: Program = bincode::decode_from_std_read(
+            reader,
+            bincode::config::standard().with_limit::<{ 1 << 24 }>(),
+        )
+        .map_err(io::Error::other)?;
 
         Self::from_instructions(&program.instructions)
             .map_err(|e| io::Error::other(format!("{e:?}")))
